@@ -131,6 +131,12 @@ func Walk(v IVisitor, n INode) {
 	case *PropertyName:
 		Walk(v, &n.Literal)
 		Walk(v, n.Computed)
+	case *ClassElementName:
+		if n.Private != nil {
+			Walk(v, n.Private)
+		} else {
+			Walk(v, &n.PropertyName)
+		}
 	case *BindingArray:
 		if n.List != nil {
 			for i := 0; i < len(n.List); i++ {
